@@ -1462,6 +1462,13 @@ fn verify_upgrade(
     }
     let extra = &upgrade.additional_nodes;
 
+    if changeset.roots.is_empty() {
+        // An upgrade to length zero (or one whose nodes produced no root) has no last root to
+        // continue from
+        return Err(HypercoreError::InvalidOperation {
+            context: "Upgrade proof does not contain any roots".to_string(),
+        });
+    }
     iter.seek(changeset.roots[changeset.roots.len() - 1].index);
     i = 0;
 
